@@ -1,10 +1,135 @@
-"""C17 — The parser is total and printing round-trips (bounded stand-in: bounded/c17.py).  The tokenizer functions
-(_token_*) are candidates for progress/safety contracts on strings (DESIGN.md section 2, C17); not built yet."""
+"""C17 — The parser is total and printing round-trips.
+
+Proof part (tokenizer helpers, problog/parser.py): the scanning helpers every token action is built from are proved
+for ALL strings and positions: they return a position strictly after `pos` and at most len(s) (progress, so the
+tokenizer's main loop terminates and never indexes outside the string), raise only the declared parse errors, and the
+character classes are what the dispatch table assumes.  The token actions themselves, collapse/label_tokens/fold and
+the factories are covered by the bounded stand-in (bounded/c17.py): totality on mutated program texts and the
+print -> parse round trip on generated terms and clauses.
+"""
 from pyvc.dsl import *
 
 S = Spec("C17", "The parser is total and printing round-trips")
 LEVEL = "exploration"
-S.unverified("everything: bounded run-time contract only")
+S.assume("str.find(sub, start) is z3's str.indexof for start >= 0 (Python counts a negative start from the end: excluded by "
+         "the preconditions pos >= 0)")
+
+S.fn("problog.parser:skip_to", types={"s": "Str", "pos": "Int", "char": "Str"}, returns="Int",
+     requires=["0 <= pos <= len(s)", "len(char) == 1"],
+     ensures=["pos < result or result == len(s)", "pos <= result <= len(s)",
+              # lands right behind the first occurrence of char at or after pos, or at the end of the string
+              "implies(result <= len(s) and s.find(char, pos) != -1, result == s.find(char, pos) + 1)",
+              "implies(s.find(char, pos) == -1, result == len(s))"])
+
+S.fn("problog.parser:skip_comment_line", types={"s": "Str", "pos": "Int"}, returns="Int",
+     requires=["0 <= pos <= len(s)"],
+     ensures=["pos <= result <= len(s)", "pos < result or result == len(s)"])
+
+S.fn("problog.parser:skip_comment_c", types={"s": "Str", "pos": "Int"}, returns="Int",
+     requires=["0 <= pos <= len(s)"],
+     raises={"UnmatchedCharacter": "s.find('*/', pos) == -1"},
+     ensures=["pos + 2 <= result <= len(s)", "s.find('*/', pos) != -1", "result == s.find('*/', pos) + 2"])
+
+S.fn("problog.parser:is_digit", types={"c": "Str"}, returns="Bool",
+     requires=["len(c) == 1"],
+     ensures=["result == (c == '0' or c == '1' or c == '2' or c == '3' or c == '4' or c == '5' or c == '6' or c == '7'"
+              " or c == '8' or c == '9')"])
+
+S.fn("problog.parser:is_comment_start", types={"c": "Str"}, returns="Bool",
+     ensures=["result == (c == '%' or c == '/')"])
+
+S.fn("problog.parser:is_whitespace", types={"c": "Str"}, returns="Bool",
+     requires=["len(c) == 1"],
+     ensures=["implies(c == ' ' or c == '\\n' or c == '\\t', result)", "implies(c == 'a' or c == '(' or c == '0', not result)"])
+
+# ---- token actions without operator tables: progress and bounds for every string and position
+S.cls("problog.parser:Token",
+      fields={"string": "Str", "location": "Int", "atom": "Bool", "special": "Opt[Int]", "functor": "Bool",
+              "arglist": "Bool", "aggregate": "Bool", "is_comma_list": "Bool",
+              "binop": "None", "unop": "None", "atom_action": "None"})
+S.cls("problog.parser:PrologParser", fields={})
+S.alias("Tok", "Ref[Token]")
+S.fn("problog.parser:Token.__init__",
+     types={"string": "Str", "pos": "Int", "types": "None", "end": "None", "atom": "Bool", "functor": "Bool",
+            "binop": "None", "unop": "None", "special": "Opt[Int]", "atom_action": "None"},
+     modifies=["self.string", "self.location", "self.atom", "self.special", "self.functor", "self.arglist",
+               "self.aggregate", "self.is_comma_list", "self.binop", "self.unop", "self.atom_action"],
+     ensures=["self.string == string", "self.location == pos", "self.special == special", "self.atom == atom",
+              "self.functor == (functor and atom)"],
+     note="the operator fields binop/unop/atom_action (tuples holding factory callbacks) are outside the subset: "
+          "calls that pass them are not under contract")
+
+S.fn("problog.parser:PrologParser._next_paren_open", types={"s": "Str", "pos": "Int"}, returns="Bool",
+     requires=["0 <= pos < len(s)"],
+     ensures=["result == (pos + 1 < len(s) and (s[pos + 1] == '(' or s[pos + 1] == '['))"])
+
+S.fn("problog.parser:PrologParser._skip", types={"s": "Str", "pos": "Int"}, returns="Tuple[None,Int]",
+     requires=["0 <= pos < len(s)"], ensures=["result[1] == pos + 1"])
+
+S.fn("problog.parser:PrologParser._token_percent", types={"s": "Str", "pos": "Int"}, returns="Tuple[None,Int]",
+     requires=["0 <= pos < len(s)", "s[pos] == '%'"],
+     ensures=["pos < result[1] <= len(s)"])
+
+S.fn("problog.parser:PrologParser._token_dquot", types={"s": "Str", "pos": "Int"}, returns="Tuple[Tok,Int]",
+     requires=["0 <= pos < len(s)", "s[pos] == '\"'"],
+     raises={"UnmatchedCharacter": "True"},
+     modifies=["Token.*"],
+     loops={0: loop(invariant=["end == -1 or (pos < end < len(s) and s[end] == '\"')"],
+                    decreases="len(s) - end if end != -1 else 0")},
+     ensures=["pos + 1 < result[1] <= len(s)", "s[result[1] - 1] == '\"'",
+              "result[0].string == s[pos:result[1]]", "result[0].location == pos", "result[0].special == 10"])
+
+S.fn("problog.parser:PrologParser._token_squot", types={"s": "Str", "pos": "Int"}, returns="Tuple[Tok,Int]",
+     requires=["0 <= pos < len(s)", "s[pos] == \"'\""],
+     raises={"UnmatchedCharacter": "True"},
+     modifies=["Token.*"],
+     loops={0: loop(invariant=["end == -1 or (pos < end < len(s) and s[end] == \"'\")"],
+                    decreases="len(s) - end if end != -1 else 0")},
+     ensures=["pos + 1 < result[1] <= len(s)", "s[result[1] - 1] == \"'\"",
+              "result[0].string == s[pos:result[1]]", "result[0].location == pos"])
+
+S.fn("problog.parser:PrologParser._token_paren_open", types={"s": "Str", "pos": "Int"}, returns="Tuple[Tok,Int]",
+     requires=["0 <= pos < len(s)"], modifies=["Token.*"],
+     ensures=["result[1] == pos + 1", "result[0].special == 0", "not result[0].atom"])
+S.fn("problog.parser:PrologParser._token_paren_close", types={"s": "Str", "pos": "Int"}, returns="Tuple[Tok,Int]",
+     requires=["0 <= pos < len(s)"], modifies=["Token.*"],
+     ensures=["result[1] == pos + 1", "result[0].special == 1", "not result[0].atom"])
+
+# ---- the loop-free operator token actions: one uniform contract, for every string and position.
+# The callbacks of the factory are only stored in the token (abstract values).
+S.classes["PrologParser"].fields["factory"] = "Abs[Factory]"
+S.abs_attrs = {"Factory": dict((a, "Cb") for a in ("build_binop", "build_unop", "build_conjunction", "build_disjunction",
+                                                   "build_directive", "build_probabilistic", "build_not"))}
+OP = "Opt[Tuple[Int,Str,Abs[Cb]]]"
+for _f in ("binop", "unop"):
+    S.classes["Token"].fields[_f] = OP
+    S.fns["problog.parser:Token.__init__"].types[_f] = OP
+NEXT_OPEN = "(result[1] < len(s) and (s[result[1]] == '(' or s[result[1]] == '['))"
+# operators that can also be prefix operators keep the lookahead of the original code (directly after their first
+# character): for them "name(" must stay an operator application, e.g. \+(a, b)
+PREFIX_TOO = ("_token_plus", "_token_min", "_token_backslash", "_token_tilde", "_token_colon")
+# tokens that are pure binary operators (the functional notation op(a,b) must be recognised for each of them)
+BINARY = ("_token_pound", "_token_asterisk", "_token_slash", "_token_less", "_token_equal", "_token_greater", "_token_at",
+          "_token_caret", "_token_ampersand")
+DISPATCH = {"_token_pound": "#", "_token_asterisk": "*", "_token_plus": "+", "_token_comma": ",", "_token_min": "-",
+            "_token_slash": "/", "_token_colon": ":", "_token_semicolon": ";", "_token_exclamation": "!", "_token_less": "<",
+            "_token_equal": "=", "_token_greater": ">", "_token_question": "?", "_token_at": "@", "_token_bracket_open": "[",
+            "_token_backslash": "\\\\", "_token_bracket_close": "]", "_token_caret": "^", "_token_pipe": "|",
+            "_token_ampersand": "&", "_token_tilde": "~"}
+for _name in sorted(DISPATCH):
+    _ens = ["pos < result[1] <= len(s)",
+            # the token is exactly the text it consumed, at its position
+            "implies(result[0] is not None, result[0].string == s[pos:result[1]] and result[0].location == pos)"]
+    if _name in BINARY:
+        # used as a functor exactly when an opening parenthesis or bracket follows the WHOLE operator
+        _ens.append("implies(result[0] is not None and result[0].atom, result[0].functor == %s)" % NEXT_OPEN)
+    S.fn("problog.parser:PrologParser.%s" % _name, types={"s": "Str", "pos": "Int"}, returns="Tuple[Opt[Tok],Int]",
+         requires=["0 <= pos < len(s)", "s[pos] == '%s'" % DISPATCH[_name]], modifies=["Token.*"],
+         raises={"UnexpectedCharacter": "True", "UnmatchedCharacter": "True"},
+         ensures=_ens)
+
+S.unverified("the token actions (_token_*), _tokenize, _extract_statements, collapse, label_tokens, fold, the factories and "
+             "Term.__repr__: bounded stand-in only (bounded/c17.py)")
 
 
 def bounded(tier, seed):
